@@ -476,6 +476,9 @@ func run(t0 time.Time) int {
 				knownHits = append(knownHits, o)
 			} else if baseline[o.Name] == "unsat" {
 				violations = append(violations, o)
+			} else if _, known := baseline[o.Name]; !known && len(baseline) > 0 && baselineHasProp(*flagVerif, prop) {
+				// an obligation the unchanged tree does not have at all (new code) and that does not discharge
+				violations = append(violations, o)
 			} else {
 				undecidedObl = append(undecidedObl, o)
 			}
@@ -809,4 +812,16 @@ func (lm *labelMap) propsFor(o *Obl) []string {
 		}
 	}
 	return nil
+}
+
+func baselineHasProp(verif, prop string) bool {
+	b, err := os.ReadFile(filepath.Join(verif, "baseline_obligations.json"))
+	if err != nil {
+		return false
+	}
+	var raw map[string]map[string]string
+	if json.Unmarshal(b, &raw) != nil {
+		return false
+	}
+	return len(raw[prop]) > 0
 }
